@@ -93,6 +93,9 @@ class CMRF(Distribution):
             raise NotImplementedError("Gradient not implemented for distribution {} with geometry {}".format(self,self.geometry))
 
         if not callable(self.location): # for prior
+            # Non-positive scale: not a distribution (logpdf is nan), report nan as for points outside a support
+            if np.any(np.asarray(self.scale) <= 0):
+                return val*np.nan
             diff = self._diff_op._matrix @ (val - self.location)
             return (-2*diff/(diff**2+self.scale**2)) @ self._diff_op._matrix
         else:
